@@ -12,9 +12,12 @@
 package main
 
 import (
+	"bytes"
+	"encoding/json"
 	"fmt"
 	"math"
 	"os"
+	"os/exec"
 	"reflect"
 	"sort"
 	"strconv"
@@ -40,7 +43,7 @@ func genHistory(r *vlib.Rand, conflicts bool) hist {
 	if np == 1 && r.Chance(70) {
 		np = 2 + r.Intn(2)
 	}
-	o := progs.GenOpts{Expire: true, Hidden: true, MaxDecls: 3, Names: []string{"x", "y", "z"}}
+	o := progs.GenOpts{Expire: true, Hidden: true, ProgKey: true, Conv: true, MaxDecls: 3, Names: []string{"x", "y", "z"}}
 	// one kind per name unless conflicts are wanted
 	kindOf := map[string]string{}
 	for _, n := range o.Names {
@@ -156,6 +159,13 @@ func check(h hist, full *progs.Case, count func(string)) []finding {
 	} else if full.ScrapeErr != "" {
 		out = append(out, finding{"scrape-fails", "Prometheus Gather failed although no program exports a series twice: " + full.ScrapeErr, nil})
 	}
+	if !dup {
+		for pv, ss := range full.Scrape {
+			if !seen[pv] && len(ss) > 0 {
+				out = append(out, finding{"export-under-foreign-prog-label", fmt.Sprintf("samples are exported with prog=%q, which is no loaded program: %q", pv, ss), nil})
+			}
+		}
+	}
 	for p := range seen {
 		alone := h.w.Run(restrict(h.ops, p), h.omit, false)
 		diverged := false
@@ -239,7 +249,10 @@ func expectedSeries(s progs.Snap, p string) []string {
 	var out []string
 	for _, nm := range s.Store {
 		for _, m := range nm.Metrics {
-			if m.Prog != p || m.Decl.Kind == 4 {
+			if m.Prog != p || m.Decl.Kind == 4 || hasProgKey(m.Decl.Keys) {
+				// text metrics are not exported; a metric with a dimension named
+				// `prog` is not either: together with the exporter's own prog
+				// label the label names repeat and the sample is dropped
 				continue
 			}
 			for _, lv := range m.LVs {
@@ -266,12 +279,24 @@ func expectedSeries(s progs.Snap, p string) []string {
 	return out
 }
 
+func hasProgKey(keys []string) bool {
+	for _, k := range keys {
+		if k == "prog" {
+			return true
+		}
+	}
+	return false
+}
+
 // hasDuplicateSeries: some program exports one name and label set twice (the
 // known findings of C14); Prometheus then rejects the whole scrape.
 func hasDuplicateSeries(s progs.Snap) bool {
 	for _, nm := range s.Store {
 		seen := map[string]bool{}
 		for _, m := range nm.Metrics {
+			if hasProgKey(m.Decl.Keys) || m.Decl.Kind == 4 {
+				continue
+			}
 			for _, lv := range m.LVs {
 				mm := map[string]string{"prog": m.Prog}
 				for i, k := range m.Decl.Keys {
@@ -309,9 +334,16 @@ func nontrivial(c *progs.Case) bool {
 }
 
 func main() {
+	if os.Getenv("VERIF_CHILD_COMPILE") == "1" {
+		childCompile()
+		return
+	}
 	a := vlib.ParseArgs()
 	progs.Quiet()
 	progs.WantScrape = true
+	// captured words that are program names: a metric keyed `by prog` then
+	// carries another program's name as a label value
+	progs.Words = append(progs.Words, "p1.mtail", "p2.mtail")
 	if a.Replay != "" {
 		replay(a.Replay)
 		return
@@ -320,11 +352,17 @@ func main() {
 	rng := vlib.NewRand(a.Seed)
 	n := 300
 	if a.Thorough() {
+		freshBudget = 250
 		n = 2500
 	}
-	for i := 0; i < n; i++ {
+	for i := -1; i < n; i++ {
 		conflicts := i%3 == 2
-		h := genHistory(rng.Fork(), conflicts)
+		var h hist
+		if i < 0 {
+			h = corpusConv() // first: nothing has been compiled in this process yet
+		} else {
+			h = genHistory(rng.Fork(), conflicts)
+		}
 		c := h.w.Run(h.ops, h.omit, false)
 		if conflicts {
 			c.Note = "kinds may clash"
@@ -346,7 +384,7 @@ func main() {
 		}
 		out.Count(fmt.Sprintf("programs=%d", len(np)))
 		seen := map[string]bool{}
-		for _, f := range check(h, c, out.Count) {
+		for _, f := range append(check(h, c, out.Count), checkFresh(h, c, out.Count)...) {
 			if seen[f.class] {
 				continue
 			}
@@ -384,7 +422,8 @@ func replay(path string) {
 	}
 	full := w.Run(h.ops, h.omit, false)
 	fail := false
-	for _, f := range check(h, full, func(string) {}) {
+	progs.WantScrape = true
+	for _, f := range append(check(h, full, func(string) {}), checkFresh(h, full, func(string) {})...) {
 		fmt.Printf("%s: %s\n", f.class, f.what)
 		if f.class == v.Class {
 			fail = true
@@ -395,4 +434,92 @@ func replay(path string) {
 		os.Exit(1)
 	}
 	fmt.Println("holds")
+}
+
+// ---- reference compile in a fresh process ----
+//
+// The compiler keeps process-wide state (types.Builtins): what a program
+// compiles to must not depend on what was compiled before it in the process.
+// Comparing "P with the others" against "P alone" inside this process cannot
+// see such an influence once the process has compiled anything, so the metric
+// table of a sample of programs is also obtained from a child process that
+// compiles nothing else.
+
+type childReq struct{ Name, Text string }
+type childResp struct {
+	OK    bool            `json:"ok"`
+	Decls []progs.DeclObs `json:"decls"`
+}
+
+func childCompile() {
+	var rq childReq
+	if err := json.NewDecoder(os.Stdin).Decode(&rq); err != nil {
+		os.Exit(4)
+	}
+	vlib.QuietGlog()
+	progs.Quiet()
+	ds, ok := progs.CompileDecls(rq.Name, rq.Text)
+	_ = json.NewEncoder(os.Stdout).Encode(childResp{ok, ds})
+}
+
+func freshCompile(name, text string) (childResp, error) {
+	var rs childResp
+	cmd := exec.Command(os.Args[0])
+	cmd.Env = append(os.Environ(), "VERIF_CHILD_COMPILE=1")
+	in, _ := json.Marshal(childReq{name, text})
+	cmd.Stdin = bytes.NewReader(in)
+	outb, err := cmd.Output()
+	if err != nil {
+		return rs, err
+	}
+	err = json.Unmarshal(outb, &rs)
+	return rs, err
+}
+
+var freshDone = map[string]bool{}
+var freshBudget = 25 // quick; the thorough tier raises it
+
+// checkFresh compares, for the programs of the history that call conversion
+// builtins, the metric table compiled here with the one a fresh process gets.
+func checkFresh(h hist, full *progs.Case, count func(string)) []finding {
+	var out []finding
+	for _, o := range full.Ops {
+		if o.K != "load" {
+			continue
+		}
+		text := h.w.Srcs.Texts[o.Src]
+		key := o.Prog + "\x00" + text
+		if freshDone[key] || freshBudget <= 0 || !strings.Contains(text, "float(") {
+			continue
+		}
+		freshDone[key] = true
+		freshBudget--
+		here, okHere := progs.CompileDecls(o.Prog, text)
+		ref, err := freshCompile(o.Prog, text)
+		if err != nil {
+			out = append(out, finding{"fresh-compile-failed", "the reference compile in a child process failed: " + err.Error(), nil})
+			continue
+		}
+		count("fresh-process-compiles")
+		if okHere != ref.OK || (okHere && !reflect.DeepEqual(here, ref.Decls)) {
+			out = append(out, finding{"compile-depends-on-earlier-compiles", fmt.Sprintf("%s compiles to the metric table %+v in this process (which compiled other programs before) and to %+v in a fresh process", o.Prog, here, ref.Decls), nil})
+		}
+	}
+	return out
+}
+
+// corpusConv: a.mtail calls float() on a string capture, b.mtail calls float()
+// on a gauge that is only typed further down; loaded in this order at the very
+// start of the run.
+func corpusConv() hist {
+	w := progs.NewWorld()
+	mk := func(conv int) *progs.Prog {
+		return &progs.Prog{Conv: conv, Decls: []progs.Decl{{Kind: "counter", Name: "x"}},
+			Rules: []progs.Rule{{Tok: "a", Stmts: []progs.Stmt{{Op: "inc", M: 0}}}}}
+	}
+	return hist{w: w, ops: []progs.Op{
+		{K: "load", Prog: "p1.mtail", Src: w.Src(mk(1))},
+		{K: "load", Prog: "p2.mtail", Src: w.Src(mk(2))},
+		{K: "line", Line: "a u"},
+	}}
 }
